@@ -264,3 +264,54 @@ def rule_prec(ctx, prop: str) -> RuleResult:
             res.add(Finding("PREC", file, f.lineno, qn, "parenthesise", f"no `if {lp} < {prec_param}: s = '(' + s + ')'` found: sub-expressions are never parenthesised"))
     res.floor = 1 + len(funcs)
     return res
+
+
+def rule_printparse(ctx, prop: str) -> RuleResult:
+    """Writer / reader agreement on argument annotations.  The parser refuses a memory
+    annotation (`@ MEM`) on some argument types (`parse_arg_type`: branches that raise
+    "should not be annotated with memory locations"); the printer of LoopIR procedures
+    (`_print_fnarg`) must print exactly those types WITHOUT a memory, or the printed text
+    of a procedure with such an argument cannot be parsed again."""
+    ix = ctx.ix
+    res = RuleResult("PRINTPARSE")
+    PP = "src/exo/core/LoopIR_pprint.py"
+    PY = "src/exo/frontend/pyparser.py"
+    pf = ix.func(PP, "_print_fnarg")
+    pa = ix.module(PY).cls("Parser").methods.get("parse_arg_type")
+    if pa is None:
+        raise AnalysisError("anchor vanished: Parser.parse_arg_type")
+    res.analysed += [f"{PP}:_print_fnarg", f"{PY}:Parser.parse_arg_type"]
+    # reader: kinds whose branch rejects a memory annotation
+    refused = set()
+    for n in pa.body_nodes():
+        if isinstance(n, ast.If) and isinstance(n.test, ast.Call) and isinstance(n.test.func, ast.Name) and n.test.func.id.startswith("_is_"):
+            kind = n.test.func.id[len("_is_"):]
+            for k in ast.walk(ast.Module(body=n.body, type_ignores=[])):
+                if isinstance(k, ast.If) and "mem_node is not None" in ast.unparse(k.test) and any(isinstance(x, ast.Call) and last_name(x) == "err" for x in ast.walk(k)):
+                    refused.add(kind)
+    # writer: kinds printed without a memory
+    bare = set()
+    mem_is_numeric_only = False
+    for n in pf.body_nodes():
+        if isinstance(n, ast.If) and isinstance(n.test, ast.Compare) and isinstance(n.test.ops[0], ast.Eq):
+            t = ast.unparse(n.test.comparators[0])
+            if t.startswith("T.") and all("mem" not in ast.unparse(s) for s in n.body):
+                bare.add(t[2:])
+        if isinstance(n, ast.IfExp) and "is_numeric" in ast.unparse(n.test) and "mem" in ast.unparse(n.body):
+            mem_is_numeric_only = True
+    if not refused or (not bare and not mem_is_numeric_only):
+        raise AnalysisError(f"PRINTPARSE: could not recognise the argument-kind cases (parser refuses {sorted(refused)}, printer bare {sorted(bare)})")
+    for kind in sorted(refused):
+        res.instances += 1
+        res.nontrivial += 1
+        ok = kind in bare or (mem_is_numeric_only and kind in ("size", "index", "bool", "stride"))
+        res.ob(ok)
+        res.sample(f"argument kind `{kind}`: parser refuses `@ MEM`; printer omits it: {ok}")
+        if not ok:
+            res.add(
+                Finding("PRINTPARSE", PP, pf.lineno, "_print_fnarg", f"mem-on-{kind}",
+                        f"an argument of type `{kind}` is printed with a memory annotation (`b: {kind} @ DRAM`: the type checker gives every argument a memory) but the parser rejects "
+                        f"`@ MEM` on `{kind}`: the printed text of such a procedure cannot be parsed again")
+            )
+    res.floor = 2
+    return res
